@@ -3,12 +3,13 @@
 import array
 import itertools
 import random as _random
+import struct
 from collections import Counter
 
 import numpy
 
 from lib import Case, fbits
-from tape import Tape, TapeExhausted, TapeMismatch
+from tape import TapeExhausted, TapeMismatch
 from deap import creator, tools
 
 ANCHORS = [("deap/tools/crossover.py", ["cxOnePoint", "cxTwoPoint", "cxUniform", "cxPartialyMatched",
@@ -16,49 +17,248 @@ ANCHORS = [("deap/tools/crossover.py", ["cxOnePoint", "cxTwoPoint", "cxUniform",
                                         "cxESTwoPoint"]),
            ("deap/tools/mutation.py", ["mutShuffleIndexes", "mutFlipBit", "mutUniformInt", "mutInversion"])]
 LEVEL = "proof"
-RULE = ("exhaustive (forced tape): PMX = all permutation pairs of 0..n-1 (n<=4) x every (cxpoint1,cxpoint2) randint can "
-        "return; OX = the same pairs x every ordered sample (a,b); UPMX = the same pairs x all 2^n decision vectors; "
-        "one-/two-point/messy = fixed distinct-gene parents of all length pairs 2..5 (messy 0..4) x all cut points; uniform "
-        "crossover / bit flip = all binary strings (pairs) of length <=4 x all decision vectors; shuffle / inversion / "
-        "uniform-int = all draws for n<=4 (3). random (recorded tape): n<=12, equal and different lengths, list/array('i')/"
-        "numpy backing, indpb in {0, 1, boundary, random}. Non-trivial = the draws make the operator change at least one "
-        "argument (or, for a crossover, the cut is interior)")
+RULE = ("exhaustive (forced value tape): PMX = all permutation pairs of 0..n-1 (n<=4) x every (cxpoint1,cxpoint2) that can "
+        "be drawn; OX = the same pairs x every ordered sample (a,b); UPMX = the same pairs x all 2^n decision vectors; "
+        "one-/two-point/messy/ES = fixed distinct-gene parents of all length pairs 2..5 (messy 0..4) x all cut points; uniform "
+        "crossover / bit flip (int, bool and float coded) = all binary strings (pairs) of length <=4 x all decision vectors; "
+        "shuffle / inversion / uniform-int = all draws for n<=4 (3). long permutations: n in 257..400 for PMX/UPMX/OX every run. "
+        "random (recorded tape): n<=12, equal and different lengths, list / array('b','i','q','d') / numpy backing, |gene| up to "
+        "2^40, float strategies, bounds as int/list/tuple/range/array up to +-2^40, indpb in {0, 1, boundary, random}. "
+        "Non-trivial = the draws make the operator change at least one argument")
 EXHAUSTIVE = {"quick": False, "thorough": False}
 TIME_BUDGET = {"quick": 60, "thorough": 900}
+MIN_CASES = 20000
 TRUSTED = ["CPython list/array.array item and slice assignment and tuple-assignment order (right-hand side first, then "
            "targets left to right) as transcribed in Core/CrossMut.lean; every protocol line exercises them",
-           "random.randint/sample/randrange return values inside their documented ranges (the guards `…Ok`)",
-           "IEEE comparison random() < indpb is replayed in Lean Float (same operation)"]
+           "random.randint/randrange/choice/sample return values inside their documented ranges (the guards `…Ok`; the "
+           "model rejects any other draw)",
+           "IEEE comparison random() < indpb is replayed in Lean Float (same operation)",
+           "in place / identity (returned objects ARE the arguments, strategy objects are kept, no name is rebound to a "
+           "copy) is established on the real objects by `is` on every explored case; the Lean statements in_place1/2/_es "
+           "only fix the model's convention and hold for any operator"]
 ASSUMPTIONS = ["the two parents are different objects; ES strategies are as long as their individuals",
                "permutation operators get two permutations of 0..n-1 of the same length",
-               "numpy-backed individuals only for the element-wise operators (no slice assignment)"]
+               "numpy-backed individuals only for the element-wise operators (no slice assignment)",
+               "bit-flip individuals are homogeneous: all genes int 0/1, all bool, or all float 0.0/1.0"]
 EXPLANATION = ("Theorems C09.* hold for all gene lists, all lengths and all draws inside the ranges of the random functions; "
-               "Core/CrossMut.lean is tied to deap.tools by replaying forced and recorded tapes of the real operators.")
+               "Core/CrossMut.lean is tied to deap.tools by replaying forced and recorded value tapes of the real operators "
+               "(the tape is kind-agnostic: randint(a,b), randrange(a,b+1), choice(range) and the elements of sample() are "
+               "all 'an integer draw'). uniform_int_bounds is a statement about position<->bound alignment: the model rejects "
+               "(uniform_int_rejects) a randint answer outside the bounds zipped to its position, the contract of randint "
+               "itself is trusted. Identity / in-place is checked on the real objects only.")
+
+
+# ------------------------------------------------------------------------------------------------
+# value tape (kind-agnostic)
+# ------------------------------------------------------------------------------------------------
+def _is_int(x):
+    return isinstance(x, (int, numpy.integer)) and not isinstance(x, (bool, numpy.bool_))
+
+
+class VTape(object):
+    """Records / forces the draws of the `random` module by VALUE: a draw is ["r", x] (random()) or ["i", x]
+    (any integer-valued draw: randint, randrange, choice over integers, each element of sample over integers).
+    Equivalent draw APIs therefore replay on the same tape.  Anything else the code asks of `random`
+    (uniform, shuffle, gauss, ...) cannot be replayed by the model: TapeMismatch."""
+    PATCHED = ("random", "randint", "randrange", "choice", "sample")
+    UNSUPPORTED = ("uniform", "shuffle", "gauss", "choices", "getrandbits", "normalvariate", "triangular",
+                   "betavariate", "expovariate", "randbytes")
+
+    def __init__(self, rng=None, forced=None):
+        self.rng = rng
+        self.forced = None if forced is None else flatten(forced)
+        self.draws = []
+        self._saved = {}
+
+    def __enter__(self):
+        for n in self.PATCHED:
+            self._saved[n] = getattr(_random, n)
+            setattr(_random, n, getattr(self, "_" + n))
+        for n in self.UNSUPPORTED:
+            if hasattr(_random, n):
+                self._saved[n] = getattr(_random, n)
+                setattr(_random, n, self._unsupported(n))
+        return self
+
+    def __exit__(self, *a):
+        for n, f in self._saved.items():
+            setattr(_random, n, f)
+        return False
+
+    def _unsupported(self, name):
+        def f(*a, **k):
+            raise TapeMismatch("code called random.%s, which the model cannot replay" % name)
+        return f
+
+    def _pop(self, kind, what):
+        if not self.forced:
+            raise TapeExhausted(what)
+        t = self.forced.pop(0)
+        if t[0] != kind:
+            raise TapeMismatch("code asked for %s, tape has a %s draw" % (what, "random()" if t[0] == "r" else "integer"))
+        return t[1]
+
+    def _random(self):
+        x = self.rng.random() if self.forced is None else self._pop("r", "random()")
+        self.draws.append(["r", x])
+        return x
+
+    def _randint(self, a, b):
+        if self.forced is None:
+            x = self.rng.randint(a, b)
+        else:
+            if not (_is_int(a) and _is_int(b)):
+                raise TypeError("randint bounds must be integers, got %r, %r" % (a, b))
+            if a > b:
+                raise ValueError("empty range for randrange() (%d, %d, %d)" % (a, b + 1, b + 1 - a))
+            x = self._pop("i", "randint(%r,%r)" % (a, b))
+            if not a <= x <= b:
+                raise TapeMismatch("forced integer %r outside randint(%r,%r)" % (x, a, b))
+        self.draws.append(["i", int(x)])
+        return x
+
+    def _randrange(self, *args):
+        r = range(*args)
+        if self.forced is None:
+            x = self.rng.randrange(*args)
+        else:
+            if len(r) == 0:
+                raise ValueError("empty range for randrange()")
+            x = self._pop("i", "randrange%r" % (args,))
+            if x not in r:
+                raise TapeMismatch("forced integer %r outside randrange%r" % (x, args))
+        self.draws.append(["i", int(x)])
+        return x
+
+    def _choice(self, seq):
+        if len(seq) == 0:
+            raise IndexError("Cannot choose from an empty sequence")
+        if self.forced is None:
+            x = seq[self.rng.randrange(len(seq))]
+        else:
+            v = self._pop("i", "choice")
+            hit = [e for e in seq if _is_int(e) and e == v]
+            if not hit:
+                raise TapeMismatch("forced integer %r is not an element choice() can return" % v)
+            x = hit[0]
+        if not _is_int(x):
+            raise TapeMismatch("choice over non-integers cannot be replayed by the model")
+        self.draws.append(["i", int(x)])
+        return x
+
+    def _sample(self, population, k):
+        pop = list(population)
+        if k > len(pop) or k < 0:
+            raise ValueError("Sample larger than population or is negative")
+        if self.forced is None:
+            out = self.rng.sample(pop, k)
+        else:
+            out = []
+            for _ in range(k):
+                v = self._pop("i", "sample")
+                hit = [e for e in pop if _is_int(e) and e == v]
+                if not hit or any(e == v for e in out):
+                    raise TapeMismatch("forced integers are not a sample of the population")
+                out.append(hit[0])
+        if not all(_is_int(x) for x in out):
+            raise TapeMismatch("sample over non-integers cannot be replayed by the model")
+        for x in out:
+            self.draws.append(["i", int(x)])
+        return out
+
+
+def flatten(tape):
+    """value tokens; also reads the kind-tagged entries of harness/tape.py (older replay files)"""
+    out = []
+    for t in tape:
+        k = t[0]
+        if k in ("r", "i"):
+            out.append([k, t[1]])
+        elif k == "random":
+            out.append(["r", t[1]])
+        elif k == "randint":
+            out.append(["i", t[3]])
+        elif k == "randrange":
+            out.append(["i", t[2]])
+        elif k == "choice":
+            out.append(["i", t[2]])
+        elif k == "sample":
+            out.extend(["i", x] for x in t[3])
+        else:
+            raise ValueError("tape entry %r" % (t,))
+    return out
+
 
 # ------------------------------------------------------------------------------------------------
 # individuals
 # ------------------------------------------------------------------------------------------------
-for _name, _base, _kw in (("C09List", list, {}), ("C09Array", array.array, {"typecode": "i"}),
-                          ("C09Numpy", numpy.ndarray, {}), ("C09ESList", list, {"strategy": None}),
-                          ("C09ESArray", array.array, {"typecode": "i", "strategy": None})):
+_ARR = {"array": "i", "array_b": "b", "array_q": "q", "array_d": "d"}
+for _name, _base, _kw in ([("C09List", list, {}), ("C09Numpy", numpy.ndarray, {}), ("C09ESList", list, {"strategy": None})]
+                          + [("C09A" + c, array.array, {"typecode": c}) for c in "biqd"]
+                          + [("C09ESA" + c, array.array, {"typecode": c, "strategy": None}) for c in "iqd"]):
     if not hasattr(creator, _name):
         creator.create(_name, _base, **_kw)
 
 
-def mk(back, genes, boolean=False):
-    if boolean:
-        genes = [bool(g) for g in genes]
+def conv(genes, gtype):
+    if gtype == "b":
+        return [bool(g) for g in genes]
+    if gtype == "f":
+        return [float(g) for g in genes]
+    return [int(g) for g in genes]
+
+
+def mk(back, genes, gtype="i"):
+    if back == "array_d":
+        gtype = "f"
+    genes = conv(genes, gtype)
     if back == "list":
         return creator.C09List(genes)
-    if back == "array":
-        return creator.C09Array(genes)
+    if back in _ARR:
+        return getattr(creator, "C09A" + _ARR[back])(genes)
     if back == "numpy":
         return creator.C09Numpy(genes)
     raise ValueError(back)
 
 
-def plain(ind, boolean=False):
-    return [bool(x) for x in ind] if boolean else [int(x) for x in ind]
+def tok(x):
+    """canonical text of a gene value (integral floats travel as integers)"""
+    if isinstance(x, (bool, numpy.bool_)):
+        return "1" if x else "0"
+    if isinstance(x, (int, numpy.integer)):
+        return str(int(x))
+    if isinstance(x, (float, numpy.floating)) and float(x).is_integer():
+        return str(int(x))
+    return "?%r" % (x,)
+
+
+def val(x):
+    """gene value as a hashable Python number for the oracle"""
+    if isinstance(x, (bool, numpy.bool_)):
+        return bool(x)
+    if isinstance(x, (int, numpy.integer)):
+        return int(x)
+    return float(x)
+
+
+def tlist(xs):
+    xs = list(xs)
+    return ",".join(tok(x) for x in xs) if xs else "-"
+
+
+def sig(xs):
+    """gene-type signature: b(ool) / i(nt) / f(loat) per gene"""
+    out = []
+    for x in xs:
+        if isinstance(x, (bool, numpy.bool_)):
+            out.append("b")
+        elif isinstance(x, (int, numpy.integer)):
+            out.append("i")
+        elif isinstance(x, (float, numpy.floating)):
+            out.append("f")
+        else:
+            out.append("?")
+    return "".join(out) or "-"
 
 
 def ilist(xs):
@@ -69,6 +269,11 @@ def ilist(xs):
 def flist(xs):
     xs = list(xs)
     return ",".join(fbits(x) for x in xs) if xs else "-"
+
+
+def sbits(x):
+    """a float strategy value as an integer token (its bit pattern: exact and injective)"""
+    return struct.unpack("<Q", struct.pack("<d", float(x)))[0]
 
 
 def ident(ret, args):
@@ -98,6 +303,21 @@ def locus_ok(c1, c2, p1, p2):
     return None
 
 
+def mk_bound(kind, v):
+    """the low/up argument of mutUniformInt: an int or a sequence of the given Python type"""
+    if kind == "scalar":
+        return v
+    if kind == "list":
+        return list(v)
+    if kind == "tuple":
+        return tuple(v)
+    if kind == "range":
+        return range(v[0], v[0] + len(v)) if v else range(0)
+    if kind == "array":
+        return array.array("q", v)
+    raise ValueError(kind)
+
+
 def bound_tok(b):
     return ("q:" + ilist(b)) if isinstance(b, list) else "s:%d" % b
 
@@ -109,28 +329,36 @@ CROSS = {"onepoint": tools.cxOnePoint, "twopoint": tools.cxTwoPoint, "uniform": 
          "messy": tools.cxMessyOnePoint, "pmx": tools.cxPartialyMatched, "upmx": tools.cxUniformPartialyMatched,
          "ox": tools.cxOrdered}
 MUT = {"shuffle": tools.mutShuffleIndexes, "flip": tools.mutFlipBit, "flipb": tools.mutFlipBit,
-       "uniformint": tools.mutUniformInt, "inversion": tools.mutInversion}
+       "flipf": tools.mutFlipBit, "uniformint": tools.mutUniformInt, "inversion": tools.mutInversion}
+FLIPTYPE = {"flip": "i", "flipb": "b", "flipf": "f"}
 
 
 def make_tape(d):
     if "tape" in d:
-        return Tape(forced=[tuple(x) for x in d["tape"]])
-    return Tape(rng=_random.Random(d["tapeseed"]))
+        return VTape(forced=d["tape"])
+    return VTape(rng=_random.Random(d["tapeseed"]))
 
 
 def split_draws(draws):
-    rs = [x[1] for x in draws if x[0] == "random"]
-    ints = [x[3] for x in draws if x[0] == "randint"]
-    return rs, ints
+    return [x[1] for x in draws if x[0] == "r"], [x[1] for x in draws if x[0] == "i"]
 
 
 def evaluate(d):
     try:
         return _evaluate(d)
     except (TapeExhausted, TapeMismatch) as e:
-        # forced tapes hold exactly the draws the anchored code makes on this input
-        return Case(d, [], [], oracle="operator asked for a draw that is not on the tape (%s: %s): its sequence of "
-                    "random calls changed" % (type(e).__name__, e), tag=d["op"] + "/tape-error")
+        # the code draws differently from the anchored code: the model cannot replay it.  That breaks the
+        # correspondence; it is not a failing input of the property.
+        return Case(d, [], [], oracle="TAPE: the operator's random calls no longer fit the value tape (%s: %s)"
+                    % (type(e).__name__, e), tag=d["op"] + "/tape-error")
+
+
+def finish(d, line, exp, orc, tag, nontrivial):
+    if line is None:
+        # the draws do not have the shape the protocol line needs (different number of integer draws)
+        return Case(d, [], [], orc or "TAPE: the number of draws made by the operator does not fit the model's arguments",
+                    tag=d["op"] + "/tape-shape")
+    return Case(d, [line], [exp], orc, tag=tag, nontrivial=nontrivial)
 
 
 def _evaluate(d):
@@ -144,28 +372,37 @@ def _evaluate(d):
             orc = msg
 
     if op == "estwopoint":
-        cls = creator.C09ESList if back == "list" else creator.C09ESArray
-        scls = (lambda s: list(s)) if back == "list" else (lambda s: array.array("i", s))
-        i1, i2 = cls(d["a"]), cls(d["b"])
-        i1.strategy, i2.strategy = scls(d["sa"]), scls(d["sb"])
+        sfloat = d.get("sfloat", False)
+        sa = [x / 8.0 for x in d["sa"]] if sfloat else list(d["sa"])
+        sb = [x / 8.0 for x in d["sb"]] if sfloat else list(d["sb"])
+        stok = (lambda xs: ilist(sbits(x) for x in xs)) if sfloat else tlist
+        if back == "list":
+            i1, i2 = creator.C09ESList(d["a"]), creator.C09ESList(d["b"])
+            i1.strategy, i2.strategy = list(sa), list(sb)
+        else:
+            cls = getattr(creator, "C09ESA" + _ARR[back])
+            i1, i2 = cls(conv(d["a"], "f" if back == "array_d" else "i")), cls(conv(d["b"], "f" if back == "array_d" else "i"))
+            sc = "d" if sfloat else "q"
+            i1.strategy, i2.strategy = array.array(sc, sa), array.array(sc, sb)
         s1, s2 = i1.strategy, i2.strategy
         with tape:
             ret = tools.cxESTwoPoint(i1, i2)
         _, ints = split_draws(tape.draws)
         ids = ident(ret, (i1, i2)) + ident((i1.strategy, i2.strategy), (i1, i2, s1, s2))
-        line = "C09 estwopoint %s %s %s %s %d %d" % (ilist(d["a"]), ilist(d["sa"]), ilist(d["b"]), ilist(d["sb"]),
-                                                     ints[0], ints[1])
-        exp = "%s %s %s %s %s" % (ilist(i1), ilist(s1), ilist(i2), ilist(s2), " ".join(ids))
+        line = None
+        if len(ints) == 2:
+            line = "C09 estwopoint %s %s %s %s %d %d" % (ilist(d["a"]), stok(sa), ilist(d["b"]), stok(sb), ints[0], ints[1])
+        exp = "%s %s %s %s %s" % (tlist(i1), stok(s1), tlist(i2), stok(s2), " ".join(ids))
         if not (isinstance(ret, tuple) and len(ret) == 2 and ret[0] is i1 and ret[1] is i2):
             fail("returned objects are not the two arguments")
         else:
-            c1, c2 = plain(ret[0]), plain(ret[1])
-            t1, t2 = plain(ret[0].strategy), plain(ret[1].strategy)
+            c1, c2 = [val(x) for x in ret[0]], [val(x) for x in ret[1]]
+            t1, t2 = [val(x) for x in ret[0].strategy], [val(x) for x in ret[1].strategy]
             if ret[0].strategy is not s1 or ret[1].strategy is not s2:
                 fail("strategy objects were replaced, not modified in place")
             if len(t1) != len(c1) or len(t2) != len(c2):
                 fail("strategy length differs from individual length after crossover")
-            before = [list(zip(d["a"], d["sa"])), list(zip(d["b"], d["sb"]))]
+            before = [list(zip(d["a"], sa)), list(zip(d["b"], sb))]
             after = [list(zip(c1, t1)), list(zip(c2, t2))]
             if Counter(after[0] + after[1]) != Counter(before[0] + before[1]):
                 fail("gene/strategy pairs not conserved: %r -> %r" % (before, after))
@@ -174,9 +411,9 @@ def _evaluate(d):
                 fail("gene and strategy value did not move together: " + m)
             if len(c1) != len(d["a"]) or len(c2) != len(d["b"]):
                 fail("lengths not kept")
-        changed = plain(i1) != d["a"] or plain(i2) != d["b"] or plain(s1) != d["sa"]
-        return Case(d, [line], [exp], orc, tag="estwopoint/%s/%s" % (back, "eq" if len(d["a"]) == len(d["b"]) else "ne"),
-                    nontrivial=changed)
+        changed = [val(x) for x in i1] != d["a"] or [val(x) for x in i2] != d["b"] or [val(x) for x in s1] != sa
+        tag = "estwopoint/%s/%s%s" % (back, "eq" if len(d["a"]) == len(d["b"]) else "ne", "/fstrat" if sfloat else "")
+        return finish(d, line, exp, orc, tag, changed)
 
     if op in CROSS:
         p1, p2 = list(d["a"]), list(d["b"])
@@ -188,19 +425,18 @@ def _evaluate(d):
             else:
                 ret = CROSS[op](i1, i2)
         rs, ints = split_draws(tape.draws)
-        if op == "ox":
-            smp = [x for x in tape.draws if x[0] == "sample"][0]
-            ints = list(smp[3])
+        line = None
         if op in ("uniform", "upmx"):
             line = "C09 %s %s %s %s %s" % (op, ilist(p1), ilist(p2), fbits(indpb), flist(rs))
         elif op == "onepoint":
-            line = "C09 onepoint %s %s %d" % (ilist(p1), ilist(p2), ints[0])
-        else:
+            if len(ints) == 1:
+                line = "C09 onepoint %s %s %d" % (ilist(p1), ilist(p2), ints[0])
+        elif len(ints) == 2:
             line = "C09 %s %s %s %d %d" % (op, ilist(p1), ilist(p2), ints[0], ints[1])
-        exp = "%s %s %s" % (ilist(i1), ilist(i2), " ".join(ident(ret, (i1, i2))))
+        exp = "%s %s %s" % (tlist(i1), tlist(i2), " ".join(ident(ret, (i1, i2))))
         if not (isinstance(ret, tuple) and len(ret) == 2 and ret[0] is i1 and ret[1] is i2):
             fail("returned objects are not the two arguments (in place)")
-        c1, c2 = plain(ret[0]), plain(ret[1])
+        c1, c2 = [val(x) for x in ret[0]], [val(x) for x in ret[1]]
         kind = d.get("kind", "")
         if op in ("onepoint", "twopoint", "uniform", "messy"):
             if Counter(c1 + c2) != Counter(p1 + p2):
@@ -217,56 +453,64 @@ def _evaluate(d):
             if not (is_perm(p1) and is_perm(p2) and len(p1) == len(p2)):
                 raise ValueError("generator: permutation operator fed non-permutations without kind=garbage")
             if not is_perm(c1) or not is_perm(c2):
-                fail("%s turned permutations %r %r into %r %r" % (op, p1, p2, c1, c2))
+                big = len(p1) > 20
+                fail("%s turned permutations %s into %s" % (op, "of length %d" % len(p1) if big else "%r %r" % (p1, p2),
+                                                              "non-permutations" if big else "%r %r" % (c1, c2)))
         changed = c1 != p1 or c2 != p2
         tag = "%s/%s/%s%s" % (op, back, "eq" if len(p1) == len(p2) else "ne", "/" + kind if kind else "")
-        return Case(d, [line], [exp], orc, tag=tag, nontrivial=changed)
+        return finish(d, line, exp, orc, tag, changed)
 
     if op in MUT:
-        boolean = op == "flipb"
-        p = list(d["a"])
-        ind = mk(back, p, boolean)
-        if boolean:
-            p = [bool(x) for x in p]
+        gtype = FLIPTYPE.get(op, "i")
+        ind = mk(back, d["a"], gtype)
+        p = [val(x) for x in ind]
+        psig = sig(ind)
         indpb = d.get("indpb")
+        low = up = None
         with tape:
-            if op in ("shuffle", "flip", "flipb"):
+            if op in ("shuffle", "flip", "flipb", "flipf"):
                 ret = MUT[op](ind, indpb)
             elif op == "uniformint":
-                ret = tools.mutUniformInt(ind, d["low"], d["up"], indpb)
+                low = mk_bound(d.get("lowkind", "list" if isinstance(d["low"], list) else "scalar"), d["low"])
+                up = mk_bound(d.get("upkind", "list" if isinstance(d["up"], list) else "scalar"), d["up"])
+                ret = tools.mutUniformInt(ind, low, up, indpb)
             else:
                 ret = tools.mutInversion(ind)
         rs, ints = split_draws(tape.draws)
+        line = None
         if op == "shuffle":
-            line = "C09 shuffle %s %s %s %s" % (ilist(p), fbits(indpb), flist(rs), ilist(ints))
-        elif op in ("flip", "flipb"):
-            line = "C09 %s %s %s %s" % (op, ilist(p), fbits(indpb), flist(rs))
+            line = "C09 shuffle %s %s %s %s" % (tlist(p), fbits(indpb), flist(rs), ilist(ints))
+        elif op in FLIPTYPE:
+            line = "C09 %s %s %s %s" % (op, tlist(p), fbits(indpb), flist(rs))
         elif op == "uniformint":
-            line = "C09 uniformint %s %s %s %s %s %s" % (ilist(p), bound_tok(d["low"]), bound_tok(d["up"]), fbits(indpb),
+            line = "C09 uniformint %s %s %s %s %s %s" % (tlist(p), bound_tok(d["low"]), bound_tok(d["up"]), fbits(indpb),
                                                          flist(rs), ilist(ints))
+        elif len(ints) == 2 or (len(ints) == 0 and len(p) == 0):
+            rr_ = ints or [0, 0]
+            line = "C09 inversion %s %d %d" % (tlist(p), rr_[0], rr_[1])
+        if op in FLIPTYPE:
+            exp = "%s %s %s" % (tlist(ind), sig(ind), " ".join(ident(ret, (ind,))))
         else:
-            rr = [x[2] for x in tape.draws if x[0] == "randrange"] or [0, 0]
-            line = "C09 inversion %s %d %d" % (ilist(p), rr[0], rr[1])
-        exp = "%s %s" % (ilist(plain(ind, boolean)), " ".join(ident(ret, (ind,))))
+            exp = "%s %s" % (tlist(ind), " ".join(ident(ret, (ind,))))
         if not (isinstance(ret, tuple) and len(ret) == 1 and ret[0] is ind):
             fail("returned object is not the argument (in place)")
-        c = plain(ret[0], boolean)
+        c = [val(x) for x in ret[0]]
         kind = d.get("kind", "")
         if op in ("shuffle", "inversion"):
             if Counter(c) != Counter(p):
                 fail("%s: %r is not a permutation of the elements of %r" % (op, c, p))
             if is_perm(p) and not is_perm(c):
                 fail("%s turned the permutation %r into %r" % (op, p, c))
-        elif op in ("flip", "flipb"):
+        elif op in FLIPTYPE:
             if len(c) != len(p):
                 fail("length changed")
             elif kind != "nonbinary":
+                csig = sig(ret[0])
                 for i, (x, y) in enumerate(zip(p, c)):
-                    comp = (not x) if boolean else 1 - x
-                    if y != x and y != comp:
-                        fail("gene %d changed from %r to %r, not its complement" % (i, x, y))
-                    if boolean and not isinstance(ret[0][i], (bool, numpy.bool_)):
-                        fail("gene %d changed its type" % i)
+                    comp = type(x)(not x)
+                    if csig[i] != psig[i] or (y != x and y != comp):
+                        fail("gene %d changed from %r to %r, which is not its complement %r"
+                             % (i, x, ret[0][i], comp))
         elif op == "uniformint":
             if len(c) != len(p):
                 fail("length changed")
@@ -274,10 +518,14 @@ def _evaluate(d):
                 for i, (x, y) in enumerate(zip(p, c)):
                     lo = d["low"][i] if isinstance(d["low"], list) else d["low"]
                     hi = d["up"][i] if isinstance(d["up"], list) else d["up"]
+                    if sig([ret[0][i]]) != "i":
+                        fail("gene %d became the non-integer %r" % (i, ret[0][i]))
                     if y != x and not (lo <= y <= hi):
                         fail("gene %d changed from %r to %r outside [%r,%r]" % (i, x, y, lo, hi))
         tag = "%s/%s%s" % (op, back, "/" + kind if kind else "")
-        return Case(d, [line], [exp], orc, tag=tag, nontrivial=(c != p))
+        if op == "uniformint":
+            tag += "/%s-%s" % (d.get("lowkind", "-"), d.get("upkind", "-"))
+        return finish(d, line, exp, orc, tag, c != p)
     raise ValueError(op)
 
 
@@ -285,16 +533,24 @@ def _evaluate(d):
 # generate
 # ------------------------------------------------------------------------------------------------
 def ri(x):
-    return ["randint", None, None, x]
-
-
-def rr(x):
-    return ["randrange", None, x]
+    return ["i", x]
 
 
 def rnd(flag):
     """forced random() result for a decision against indpb = 0.5"""
-    return ["random", 0.25 if flag else 0.75]
+    return ["r", 0.25 if flag else 0.75]
+
+
+def big_perm_cases(rng, count):
+    """permutations longer than 256: position tables / hole tables must hold every index"""
+    for _ in range(count):
+        for op in ("pmx", "upmx", "ox"):
+            n = rng.randint(257, 400)
+            d = {"op": op, "kind": "long", "back": rng.choice(["list", "list", "array", "numpy"]),
+                 "a": rng.sample(range(n), n), "b": rng.sample(range(n), n), "tapeseed": rng.getrandbits(48)}
+            if op == "upmx":
+                d["indpb"] = rng.choice([0.5, 0.9, 1.0])
+            yield d
 
 
 def exhaustive(tier):
@@ -311,7 +567,7 @@ def exhaustive(tier):
                 for x in range(n):
                     for y in range(n):
                         if x != y:
-                            yield {"op": "ox", "a": a, "b": b, "tape": [["sample", n, 2, [x, y]]]}
+                            yield {"op": "ox", "a": a, "b": b, "tape": [ri(x), ri(y)]}
                 for ds in itertools.product([False, True], repeat=n):
                     yield {"op": "upmx", "a": a, "b": b, "indpb": 0.5, "tape": [rnd(f) for f in ds]}
     # --- slice crossovers: every length pair x every cut
@@ -320,17 +576,17 @@ def exhaustive(tier):
             a = list(range(10, 10 + n1))
             b = list(range(20, 20 + n2))
             size = min(n1, n2)
-            for back in ("list", "array"):
+            for back in ("list", "array", "array_d"):
                 if size >= 2:
                     for c in range(1, size):
                         yield {"op": "onepoint", "back": back, "a": a, "b": b, "tape": [ri(c)]}
                     for c1 in range(1, size + 1):
                         for c2 in range(1, size):
                             yield {"op": "twopoint", "back": back, "a": a, "b": b, "tape": [ri(c1), ri(c2)]}
-                            if back == "list" or n1 == n2:
-                                yield {"op": "estwopoint", "back": back, "a": a, "b": b,
-                                       "sa": [100 + x for x in a], "sb": [100 + x for x in b],
-                                       "tape": [ri(c1), ri(c2)]}
+                            yield {"op": "estwopoint", "back": back, "a": a, "b": b,
+                                   "sa": [100 + x for x in a], "sb": [100 + x for x in b],
+                                   "sfloat": back != "list" or (n1 + n2) % 2 == 0,
+                                   "tape": [ri(c1), ri(c2)]}
                 if n1 <= 4 and n2 <= 4:
                     for c1 in range(0, n1 + 1):
                         for c2 in range(0, n2 + 1):
@@ -343,6 +599,7 @@ def exhaustive(tier):
             for a in strings:
                 yield {"op": "flip", "a": a, "indpb": 0.5, "tape": tp}
                 yield {"op": "flipb", "a": a, "indpb": 0.5, "tape": tp}
+                yield {"op": "flipf", "a": a, "indpb": 0.5, "tape": tp}
                 if n <= 3 or thorough:
                     for b in strings:
                         yield {"op": "uniform", "a": a, "b": b, "indpb": 0.5, "tape": tp}
@@ -367,16 +624,24 @@ def exhaustive(tier):
     # --- inversion: all index pairs
     for n in range(0, 6):
         a = list(range(n))
-        for back in ("list", "array"):
+        for back in ("list", "array", "array_b"):
             if n == 0:
                 yield {"op": "inversion", "back": back, "a": a, "tape": []}
             for i in range(n):
                 for j in range(n):
-                    yield {"op": "inversion", "back": back, "a": a, "tape": [rr(i), rr(j)]}
-    # --- uniform int: n <= 3, bounds [0,1] / per gene, all selections x all values
+                    yield {"op": "inversion", "back": back, "a": a, "tape": [ri(i), ri(j)]}
+    # --- uniform int: n <= 3, all selections x all values; every sequence type for the bounds
+    big = 1 << 35
     for n in range(0, 4):
         a = [7] * n
-        for low, up in ((0, 1), ([0, 2, 4][:n], [1, 3, 5][:n]), (-1, [0, 1, 0][:n] + [9])):
+        for low, up, lk, uk in ((0, 1, "scalar", "scalar"),
+                                ([0, 2, 4][:n], [1, 3, 5][:n], "list", "list"),
+                                ([0, 2, 4][:n], [1, 3, 5][:n], "tuple", "tuple"),
+                                ([3, 4, 5][:n], [4, 5, 6][:n], "range", "range"),
+                                ([0, 2, 4][:n], [1, 3, 5][:n], "array", "tuple"),
+                                (-1, [0, 1, 0][:n] + [9], "scalar", "tuple"),
+                                (-big - 1, -big + 1, "scalar", "scalar"),
+                                ([big, 2 * big, -3 * big][:n], [big + 1, 2 * big + 1, -3 * big + 1][:n], "tuple", "array")):
             for ds in itertools.product([False, True], repeat=n):
                 choices = []
                 for i, f in enumerate(ds):
@@ -390,7 +655,8 @@ def exhaustive(tier):
                         tp.append(rnd(f))
                         if f:
                             tp.append(ri(next(it)))
-                    yield {"op": "uniformint", "a": a, "low": low, "up": up, "indpb": 0.5, "tape": tp}
+                    yield {"op": "uniformint", "a": a, "low": low, "up": up, "lowkind": lk, "upkind": uk,
+                           "indpb": 0.5, "tape": tp}
 
 
 def rand_indpb(rng):
@@ -404,37 +670,73 @@ def rand_indpb(rng):
     return rng.random()
 
 
-def rand_genes(rng, n):
+def rand_genes(rng, n, back="list"):
+    if back == "array_b":
+        return [rng.randint(-128, 127) for _ in range(n)]
     style = rng.random()
-    if style < 0.4:
+    if style < 0.35:
         return [rng.randint(-9, 9) for _ in range(n)]          # duplicates likely
-    if style < 0.7:
+    if style < 0.6:
         return [rng.randint(0, 1) for _ in range(n)]           # binary
-    return rng.sample(range(-50, 50), n)                       # distinct
+    if style < 0.8 or back == "array":
+        return rng.sample(range(-50, 50), n)                   # distinct
+    return [rng.choice([-1, 1]) * rng.randint(1 << 31, 1 << 40) for _ in range(n)]   # beyond 32 bits
 
 
-def random_case(rng):
-    op = rng.choice(["onepoint", "twopoint", "uniform", "messy", "estwopoint", "pmx", "upmx", "ox",
-                     "shuffle", "flip", "flipb", "uniformint", "inversion"])
+def rand_bound_pair(rng, n, huge):
+    """(low, up, lowkind, upkind) with low <= up position by position"""
+    base = rng.choice([-1, 1]) * rng.randint(1 << 31, 1 << 40) if huge else rng.randint(-10, 10)
+    width = rng.randint(0, 6)
+    lk = rng.choice(["scalar", "list", "tuple", "range", "array"])
+    uk = rng.choice(["scalar", "list", "tuple", "range", "array"])
+    m1, m2 = n + rng.randint(0, 2), n + rng.randint(0, 2)
+
+    def seq(kind, m, lo_side):
+        if kind == "scalar":
+            return base if lo_side else base + width
+        if kind == "range":
+            start = base - m if lo_side else base + width
+            return list(range(start, start + m))
+        return [(base - rng.randint(0, 3)) if lo_side else (base + width + rng.randint(0, 3)) for _ in range(m)]
+    return seq(lk, m1, True), seq(uk, m2, False), lk, uk
+
+
+OPS = ["onepoint", "twopoint", "uniform", "messy", "estwopoint", "pmx", "upmx", "ox",
+       "shuffle", "flip", "flipb", "flipf", "uniformint", "inversion"]
+
+
+def random_case(rng, op=None):
+    op = op or rng.choice(OPS)
     d = {"op": op, "tapeseed": rng.getrandbits(48)}
-    elementwise = op in ("uniform", "pmx", "upmx", "ox", "shuffle", "flip", "flipb", "uniformint")
-    d["back"] = rng.choice(["list", "array", "numpy"] if elementwise else ["list", "array"])
-    if op == "flipb" and d["back"] == "array":
-        d["back"] = "list"
+    elementwise = op in ("uniform", "pmx", "upmx", "ox", "shuffle", "flip", "flipb", "flipf", "uniformint")
+    if op in ("pmx", "upmx", "ox"):
+        d["back"] = rng.choice(["list", "array", "array_b", "array_q", "numpy"])
+    elif op == "flip":
+        d["back"] = rng.choice(["list", "list", "array", "array_b", "array_q", "numpy"])
+    elif op == "flipb":
+        d["back"] = rng.choice(["list", "list", "numpy"])
+    elif op == "flipf":
+        d["back"] = rng.choice(["list", "list", "array_d", "numpy"])
+    elif op == "uniformint":
+        d["back"] = rng.choice(["list", "list", "array", "array_q", "numpy"])
+    elif op == "estwopoint":
+        d["back"] = rng.choice(["list", "array", "array_q", "array_d"])
+    else:
+        d["back"] = rng.choice(["list", "array", "array_b", "array_q", "array_d"] + (["numpy"] if elementwise else []))
+    back = d["back"]
     if op in ("onepoint", "twopoint", "uniform", "estwopoint"):
         n1 = rng.randint(2, 12)
         n2 = n1 if rng.random() < 0.5 else rng.randint(2, 12)
         if op == "uniform" and rng.random() < 0.1:
             n1 = rng.randint(0, 1)
-        if op == "estwopoint" and d["back"] == "array":
-            n2 = n1          # array strategies of unequal length would still work; keep the common use
-        d["a"], d["b"] = rand_genes(rng, n1), rand_genes(rng, n2)
+        d["a"], d["b"] = rand_genes(rng, n1, back), rand_genes(rng, n2, back)
         if op == "estwopoint":
-            d["sa"], d["sb"] = rand_genes(rng, n1), rand_genes(rng, n2)
+            d["sfloat"] = rng.random() < 0.6
+            d["sa"], d["sb"] = rand_genes(rng, n1, "array"), rand_genes(rng, n2, "array")
         if op == "uniform":
             d["indpb"] = rand_indpb(rng)
     elif op == "messy":
-        d["a"], d["b"] = rand_genes(rng, rng.randint(0, 12)), rand_genes(rng, rng.randint(0, 12))
+        d["a"], d["b"] = rand_genes(rng, rng.randint(0, 12), back), rand_genes(rng, rng.randint(0, 12), back)
     elif op in ("pmx", "upmx", "ox"):
         n = rng.randint(2, 12)
         r = rng.random()
@@ -456,9 +758,9 @@ def random_case(rng):
             d["indpb"] = rand_indpb(rng)
     elif op == "shuffle":
         n = rng.randint(2, 12)
-        d["a"] = rng.sample(range(n), n) if rng.random() < 0.6 else rand_genes(rng, n)
+        d["a"] = rng.sample(range(n), n) if rng.random() < 0.6 else rand_genes(rng, n, back)
         d["indpb"] = rand_indpb(rng)
-    elif op in ("flip", "flipb"):
+    elif op in ("flip", "flipb", "flipf"):
         n = rng.randint(0, 12)
         d["a"] = [rng.randint(0, 1) for _ in range(n)]
         if op == "flip" and rng.random() < 0.1:
@@ -467,38 +769,41 @@ def random_case(rng):
         d["indpb"] = rand_indpb(rng)
     elif op == "uniformint":
         n = rng.randint(0, 12)
+        huge = back != "array" and rng.random() < 0.5
         d["a"] = [rng.randint(-20, 20) for _ in range(n)]
-        lo0 = rng.randint(-10, 10)
-
-        def bound(base, extra):
-            if rng.random() < 0.5:
-                return base
-            return [base + extra * rng.randint(0, 3) for _ in range(n + rng.randint(0, 2))]
-        d["low"] = bound(lo0, -1)
-        d["up"] = bound(lo0 + rng.randint(0, 6), 1)
+        d["low"], d["up"], d["lowkind"], d["upkind"] = rand_bound_pair(rng, n, huge)
         d["indpb"] = rand_indpb(rng)
     elif op == "inversion":
         n = rng.randint(0, 12)
-        d["a"] = rng.sample(range(n), n) if rng.random() < 0.6 else rand_genes(rng, n)
+        d["a"] = rng.sample(range(n), n) if rng.random() < 0.6 else rand_genes(rng, n, back)
     return d
 
 
 def generate(tier, rng, mult):
+    # long permutations first (a clause of their own: tables must hold every index), every run
+    for d in big_perm_cases(rng, 3 if tier == "quick" else 12):
+        yield d
+    # a fixed share of random cases for EVERY operator (which operators run never depends on the seed)
+    per_op = (300 if tier == "quick" else 1500) * mult
+    for op in OPS:
+        for _ in range(per_op):
+            yield random_case(rng, op)
     for d in exhaustive(tier):
         yield d
     # boundary decisions: random() == indpb exactly must not select (strict <)
+    top = 0.9999999999999999
     for op in ("uniform", "upmx", "flip", "shuffle", "uniformint"):
         for pb in (0.0, 0.5, 1.0):
             d = {"op": op, "a": [1, 0, 2], "indpb": pb, "kind": "boundary",
-                 "tape": [["random", pb if pb < 1.0 else 0.9999999999999999]] * 3}
+                 "tape": [["r", pb if pb < 1.0 else top]] * 3}
             if op in ("uniform", "upmx"):
                 d["b"] = [2, 1, 0]
             if op == "flip":
                 d["a"] = [1, 0, 1]
             if op == "uniformint":
-                d["low"], d["up"] = 3, 5
+                d["low"], d["up"], d["lowkind"], d["upkind"] = 3, 5, "scalar", "scalar"
             if pb == 1.0 and op in ("shuffle", "uniformint"):
-                d["tape"] = [x for _ in range(3) for x in (["random", 0.9999999999999999], ri(1 if op == "shuffle" else 4))]
+                d["tape"] = [x for _ in range(3) for x in (["r", top], ri(1 if op == "shuffle" else 4))]
             yield d
     if tier == "thorough":
         # n = 5: every permutation pair, a few draws each
@@ -507,10 +812,10 @@ def generate(tier, rng, mult):
             for b in perms:
                 for _ in range(2):
                     yield {"op": "pmx", "a": a, "b": b, "tape": [ri(rng.randint(0, 5)), ri(rng.randint(0, 4))]}
-                    yield {"op": "ox", "a": a, "b": b, "tape": [["sample", 5, 2, rng.sample(range(5), 2)]]}
+                    yield {"op": "ox", "a": a, "b": b, "tape": [ri(x) for x in rng.sample(range(5), 2)]}
                     yield {"op": "upmx", "a": a, "b": b, "indpb": 0.5,
                            "tape": [rnd(rng.random() < 0.5) for _ in range(5)]}
-    n = (150000 if tier == "thorough" else 30000) * mult
+    n = (130000 if tier == "thorough" else 26000) * mult
     for _ in range(n):
         yield random_case(rng)
 
@@ -520,9 +825,8 @@ def shrink(d):
     if "tapeseed" in d:
         try:
             tape = make_tape(d)
-            e = dict(d)
             with tape:
-                _evaluate_draws(e, tape)
+                _run(d)
         except Exception:  # noqa
             return
         e = {k: v for k, v in d.items() if k != "tapeseed"}
@@ -542,12 +846,11 @@ def shrink(d):
                         yield e
 
 
-def _evaluate_draws(d, tape):
-    """runs the operator of case `d` once under `tape` (already entered) to collect its draws"""
+def _run(d):
+    """runs the operator of case `d` once (inside an entered tape) to collect its draws"""
     op, back = d["op"], d.get("back", "list")
     if op == "estwopoint":
-        cls = creator.C09ESList if back == "list" else creator.C09ESArray
-        i1, i2 = cls(d["a"]), cls(d["b"])
+        i1, i2 = creator.C09ESList(d["a"]), creator.C09ESList(d["b"])
         i1.strategy, i2.strategy = list(d["sa"]), list(d["sb"])
         tools.cxESTwoPoint(i1, i2)
     elif op in CROSS:
@@ -557,11 +860,12 @@ def _evaluate_draws(d, tape):
         else:
             CROSS[op](i1, i2)
     else:
-        ind = mk(back, d["a"], op == "flipb")
-        if op in ("shuffle", "flip", "flipb"):
+        ind = mk(back, d["a"], FLIPTYPE.get(op, "i"))
+        if op in ("shuffle", "flip", "flipb", "flipf"):
             MUT[op](ind, d["indpb"])
         elif op == "uniformint":
-            tools.mutUniformInt(ind, d["low"], d["up"], d["indpb"])
+            tools.mutUniformInt(ind, mk_bound(d.get("lowkind", "scalar"), d["low"]),
+                                mk_bound(d.get("upkind", "scalar"), d["up"]), d["indpb"])
         else:
             tools.mutInversion(ind)
 
